@@ -23,7 +23,7 @@ ASSUMPTIONS = [
     'derivative oracle: complex-step differentiation of the reference (exact to rounding)',
     'outputs of multiplicative / constant+multiplicative models are positive (negative total '
     'standard deviations are outside the documented model)']
-REQUIRED = ['kind:gauss', 'kind:mult', 'kind:cm', 'kind:lognorm', 'oos', 'reduced', 'p=0', 'n=1', 'long', 'cm:negative_output', 'oos:both']
+REQUIRED = ['kind:gauss', 'kind:mult', 'kind:cm', 'kind:lognorm', 'oos', 'reduced', 'p=0', 'n=1', 'long', 'cm:negative_output', 'oos:both', 'large_common_level']
 KINDS = ['gauss', 'mult', 'cm', 'lognorm']
 
 
@@ -70,9 +70,31 @@ def _spec(draw):
             ybar[0] = -abs(ybar[0])
         sig[1] = draw(gen.logu(1e-3, 1e1))
         sig[0] = gen.r6(sig[1] * max(-v for v in ybar) * (1.0 + draw(gen.logu(0.05, 5.0))))
+    offset = None
+    if gen.chance(draw, 0.07):
+        # measurements and predictions that share a large common level while residuals and scales are of order one
+        # (counts around 1e7, a baseline of 4e6): the densities depend on the residuals only, which are exact here
+        offset = draw(st.sampled_from([1e6, float(2 ** 24), 3e8]))
+        u = draw(gen.vec(gen.real(0.0, 8.0), n))
+        r = draw(gen.vec(gen.real(-3.0, 3.0), n))
+        ybar = [offset + round(v * 64) / 64.0 for v in u]
+        sig = draw(gen.vec(gen.logu(0.2, 4.0), npar))
+        if kind == 'gauss':
+            y = [b + round(q * sig[0] * 64) / 64.0 for b, q in zip(ybar, r)]
+        elif kind == 'mult':
+            sig[0] = gen.r6(sig[0] / offset)
+            y = [b + round(q * sig[0] * b * 64) / 64.0 for b, q in zip(ybar, r)]
+        elif kind == 'cm':
+            sig[1] = gen.r6(sig[1] / offset)
+            y = [b + round(q * (sig[0] + sig[1] * b) * 64) / 64.0 for b, q in zip(ybar, r)]
+        else:
+            # (log-normal: the density is a function of log y - log ybar, so the scale stays of order one)
+            sig[0] = gen.r6(sig[0] / 4.0)
+            y = [gen.sig6(b * float(np.exp(q * sig[0]))) for b, q in zip(ybar, r)]
+        y = [v if v != b else b + 0.5 for v, b in zip(y, ybar)]
     S = draw(gen.mat(gen.real(-5, 5), n, p))
     oos = None
-    if gen.chance(draw, 0.15):
+    if offset is None and gen.chance(draw, 0.15):
         choices = ['sig0'] + (['sig1', 'both'] if npar == 2 else []) + (['ybar'] if kind == 'lognorm' else [])
         oos = draw(st.sampled_from(choices))
         val = draw(st.sampled_from([0.0, -1.0, -0.37]))
@@ -90,7 +112,7 @@ def _spec(draw):
     if gen.chance(draw, 0.25):
         fixed = draw(gen.subset(npar, min_size=0))
     jq = draw(st.integers(0, n - 1))
-    return dict(kind=kind, n=n, p=p, ybar=ybar, y=y, sig=sig, S=S, oos=oos, fixed=fixed, jq=jq)
+    return dict(kind=kind, n=n, p=p, ybar=ybar, y=y, sig=sig, S=S, oos=oos, fixed=fixed, jq=jq, offset=offset)
 
 
 def strategy(tier):
@@ -111,6 +133,8 @@ def classify(spec):
         labs.append('p=0')
     if spec['n'] == 1:
         labs.append('n=1')
+    if spec.get('offset'):
+        labs.append('large_common_level')
     if spec['kind'] == 'cm' and any(v < 0 for v in spec['ybar']) and not spec['oos']:
         labs.append('cm:negative_output')
     return labs
